@@ -31,17 +31,55 @@ def loop_body(b):
     return start[0], start[1], head[0], rng
 
 
+def map_collect(F, b):
+    """(closure body, (lo, hi)) when the first element of the returned pair is `(lo..hi+1).map(closure).collect()`: element i of
+    the table is closure(i) by the meaning of map/collect over a range."""
+    maps = [(bb, t) for bb, t in b.calls() if strip_generics(callee_def(t)) == "std::iter::Iterator::map"]
+    cols = [(bb, t) for bb, t in b.calls() if strip_generics(callee_def(t)) == "std::iter::Iterator::collect"]
+    if len(maps) != 1 or len(cols) != 1:
+        return None
+    mt, ct = maps[0][1], cols[0][1]
+    rp, fp, cp = op_place(mt["args"][0]), op_place(mt["args"][1]), op_place(ct["args"][0])
+    if rp is None or fp is None or cp is None or cp["l"] != mt["dest"]["l"] or cp["p"] or rp["p"] or fp["p"]:
+        return None
+    rd, fd = b.single_def(rp["l"]), b.single_def(fp["l"])
+    if not (rd and rd[2] == "assign" and rd[3]["k"] == "agg" and rd[3].get("adt") == "std::ops::Range"):
+        return None
+    lo, hi = flow.const_eval(b, rd[3]["ops"][0]), flow.const_eval(b, rd[3]["ops"][1])
+    if lo is None or hi is None or not (fd and fd[2] == "assign" and fd[3]["k"] == "agg" and fd[3].get("ak") == "closure" and not fd[3]["ops"]):
+        return None
+    # the collected vector is what the function returns first
+    rets = [s["r"] for bb in b.normal_blocks() for s in b.stmts(bb) if s["k"] == "assign" and s["p"]["l"] == 0 and not s["p"]["p"]]
+    if len(rets) != 1 or rets[0]["k"] != "agg" or rets[0].get("ak") != "tuple":
+        return None
+    org = flow.origin(b, rets[0]["ops"][0])
+    if not any(bb == cols[0][0] for bb, _ in org.calls):
+        return None
+    try:
+        cb = F.body(fd[3]["def"])
+    except Exception:
+        return None
+    if len(cb.locals) < 3 or not re.match(r"^[iu](8|16|32|64|size)$", cb.locals[2]["ty"]):
+        return None
+    return cb, (lo, hi - 1)
+
+
 def t3(ctx, rep):
     F = ctx.lib
     b = F.body(P + "huffman_encoding::HuffmanOriginalEncoding::get_fixed_distance_lengths")
     where = "%s:%s" % (b.file, b.line)
     lb = loop_body(b)
-    if lb is None:
-        rep.add("T3", "UNRECOGNISED-IDIOM:fixed-literal-lengths", False, where, "cannot find the single constant-range loop that fills the literal length table")
+    mc = map_collect(F, b) if lb is None else None
+    if lb is None and mc is None:
+        rep.add("T3", "UNRECOGNISED-IDIOM:fixed-literal-lengths", False, where, "cannot find the single constant-range loop (or `(a..b).map(f).collect()`) that fills the literal length table")
         return
-    start, var, head, (lo, hi) = lb
     try:
-        pw = Part(F, b).piecewise(start, var, lo, hi, lambda res, pushes: pushes[0][1] if len(pushes) == 1 and single(pushes[0]) else None, stop_blocks=(head,))
+        if lb is not None:
+            start, var, head, (lo, hi) = lb
+            pw = Part(F, b).piecewise(start, var, lo, hi, lambda res, pushes: pushes[0][1] if len(pushes) == 1 and single(pushes[0]) else None, stop_blocks=(head,))
+        else:
+            cb, (lo, hi) = mc
+            pw = Part(F, cb).piecewise(0, 2, lo, hi, lambda res, pushes: res[1] if not pushes and single(res) else None)
     except Unsupported as e:
         rep.add("T3", "UNRECOGNISED-IDIOM:fixed-literal-lengths", False, where, str(e))
         return
